@@ -16,7 +16,7 @@ REGISTRY = {}     # property id -> list of Obligation
 
 class Obligation:
     def __init__(self, pid, name, fn, tier='quick', entries=(), statement='', bounds='', abstractions=(),
-                 covers=(), opts=None, expect='unsat', kind='K', finding=None):
+                 covers=(), opts=None, expect='unsat', kind='K', finding=None, replay=None):
         self.pid = pid
         self.name = name
         self.fn = fn
@@ -30,6 +30,7 @@ class Obligation:
         self.expect = expect
         self.kind = kind
         self.finding = finding
+        self.replay = replay
 
 
 def obligation(pid, name, **kw):
